@@ -82,6 +82,7 @@ def FlipPolarity(F):
     """
     newF = CNF()
     newF.header = copy(F.header)
+    newF.update_variable_number(F.number_of_variables())
     add_description(newF,"All polarities have been flipped")
 
     def subst(lit):
